@@ -156,9 +156,28 @@ impl FileSpec {
 pub fn blob(len: u32, seed: u64, compressible: bool) -> Vec<u8> {
 	let mut r = Rng::from_seed(seed);
 	if compressible {
-		let n = 1 + r.usize(13);
-		let pat = r.bytes(n);
-		(0..len as usize).map(|i| pat[i % pat.len()]).collect()
+		// what the bytes ARE matters to the codecs (stored / raw / run-length blocks, compressed forms a few bytes
+		// long): all zeros, one repeated byte, runs of drawn lengths, a short repeating pattern
+		match seed % 8 {
+			0 => vec![0u8; len as usize],
+			1 => vec![*r.pick(&[0xFFu8, 0x80, 0x01, b'a']); len as usize],
+			2 => {
+				let mut out = Vec::with_capacity(len as usize);
+				while out.len() < len as usize {
+					let span = *r.pick(&[3usize, 40, 700, 9000]);
+					let run = 1 + r.usize(span);
+					let b = r.next_u64() as u8;
+					let run = run.min(len as usize - out.len());
+					out.extend(std::iter::repeat(b).take(run));
+				}
+				out
+			}
+			_ => {
+				let n = 1 + r.usize(13);
+				let pat = r.bytes(n);
+				(0..len as usize).map(|i| pat[i % pat.len()]).collect()
+			}
+		}
 	} else {
 		r.bytes(len as usize)
 	}
@@ -1008,11 +1027,28 @@ pub fn gen_filespec(rng: &mut Rng, p: &SpecProfile) -> FileSpec {
 		5 => 4096,
 		_ => 64 * 1024,
 	};
+	// one file in 25: the sync marker also occurs INSIDE the block data (16 bytes taken from the encoded values): a
+	// reader goes by the block's byte size, never by looking for the marker
+	let mut sync = gen_sync(rng);
+	if rng.chance(1, 25) {
+		let mut data = vec![];
+		for op in &ops {
+			if let Op::Serialize { val, poison: None, .. } = op {
+				if let Ok((b, _)) = ref_datum::encode(&env, &schema, val, Layout::default()) {
+					data.extend_from_slice(&b);
+				}
+			}
+		}
+		if data.len() >= 16 {
+			let off = rng.usize(data.len() - 15);
+			sync.copy_from_slice(&data[off..off + 16]);
+		}
+	}
 	FileSpec {
 		schema,
 		codec,
 		approx_block_size,
-		sync: gen_sync(rng),
+		sync,
 		user_meta: gen_user_meta(rng),
 		ops,
 		end: if rng.bool() { End::IntoInner } else { End::Drop },
@@ -1084,13 +1120,36 @@ pub fn gen_long_spec(rng: &mut Rng, p: &SpecProfile, max_n: u32) -> FileSpec {
 	if rng.chance(1, 3) {
 		ops.push(Op::FinishBlock);
 	}
+	let pattern = if huge_block { 0 } else { rng.below(7) as u8 };
+	// pattern 6 = a long run of blocks of one to two KiB each that no codec can shrink (what adaptive "this data does
+	// not compress" logic reacts to): incompressible bytes, a block per value, codecs drawn evenly
+	let (schema, approx_block_size, finish_every, codec) = if pattern == 6 && rng.chance(3, 4) {
+		let codec = match rng.below(if p.heavy_codecs { 6 } else { 4 }) {
+			0 => Codec::Null,
+			1 => Codec::Deflate(if rng.bool() { 0 } else { 1 + rng.below(9) as u8 }),
+			2 => Codec::Snappy,
+			3 => Codec::Zstd(if rng.bool() { 0 } else { 1 + rng.below(9) as u8 }),
+			4 => Codec::Bzip2(1),
+			_ => Codec::Xz(1),
+		};
+		let (a, f) = if rng.bool() { (0, 0) } else { (64 * 1024, 1) };
+		(if rng.chance(2, 3) { Ty::Bytes } else { Ty::Record { name: 0, fields: vec![(0, Ty::Int), (1, Ty::Bytes)] } }, a, f, codec)
+	} else {
+		(schema, approx_block_size, finish_every, codec)
+	};
+	let n = if matches!(codec, Codec::Bzip2(_) | Codec::Xz(_)) { n.min(300) } else { n };
+	// (zstandard above level 9 sets up tens to hundreds of MiB of tables per block: not hundreds of times per file)
+	let codec = match codec {
+		Codec::Zstd(l) if l > 9 => Codec::Zstd(1 + l % 9),
+		c => c,
+	};
 	ops.push(Op::Many {
 		seed: rng.next_u64(),
 		n,
 		finish_every,
 		push_every: if p.push_ops && !huge_block && rng.chance(1, 3) { 2 + rng.below(9) as u32 } else { 0 },
 		poison_every: if p.poison && !huge_block && rng.chance(1, 2) { 2 + rng.below(40) as u32 } else { 0 },
-		pattern: if huge_block { 0 } else { rng.below(7) as u8 },
+		pattern,
 	});
 	FileSpec {
 		schema,
